@@ -1,3 +1,4 @@
+import Heathcliff.Proofs.C02W
 import Heathcliff.Proofs.C02V
 import Heathcliff.Proofs.C02K
 
@@ -156,5 +157,45 @@ theorem bgvDecode_balanced_poly : type_of% @HC.bgvDecode_balanced_poly := @HC.bg
 
 /-- `CtCanon` is what the model's validator `ctValid` (`Ciphertext::is_valid_for`) establishes for a non-empty ciphertext -/
 theorem CtCanon_of_ctValid : type_of% @HC.CtCanon.of_ctValid := @HC.CtCanon.of_ctValid
+
+
+/-! ### BEHZ `bfvMultiply` of the model end to end: totality and shape for all sizes, exact integer semantics per coefficient (one alpha < |q| per coefficient), ring-level phase identity; constants derived from RNSTool.new
+    (statements, hypothesis bundles and non-vacuity instances: Heathcliff/Proofs/C02W.lean, section "Property theorems") -/
+
+/-- W1 (totality, shape, closed form).  For coefficient-form operands of ANY sizes ≥ 1 whose polynomials are canonical at a level
+    satisfying `MulOK`, `bfvMultiply` succeeds (no overflow / out-of-range branch is reachable); the result has
+    `size a + size b − 1` canonical polynomials, stays in coefficient form, keeps the correction factor, and every residue is the
+    closed form `c02w_mulVal`. -/
+theorem bfvMultiply_ok : type_of% @HC.bfvMultiply_ok := @HC.bfvMultiply_ok
+
+/-- W1 for valid BFV ciphertexts: canonical operands with `size a + size b − 1 ≤ 16` give a canonical ciphertext -/
+theorem bfvMultiply_canon : type_of% @HC.bfvMultiply_canon := @HC.bfvMultiply_canon
+
+/-- refusal: an operand in NTT form -/
+theorem bfvMultiply_refuse_ntt : type_of% @HC.bfvMultiply_refuse_ntt := @HC.bfvMultiply_refuse_ntt
+
+/-- refusal: an operand without polynomials (after the lifts of both operands succeeded) -/
+theorem bfvMultiply_refuse_empty : type_of% @HC.bfvMultiply_refuse_empty := @HC.bfvMultiply_refuse_empty
+
+/-- W2, operands: the lifted coefficient `c02w_liftZ` of a canonical polynomial is congruent to the input residue modulo every
+    q_i and satisfies `2·m̃·|X| ≤ Q·(m̃ + 2|q|)` (|X| ≤ Q/2 + |q|·Q/m̃, m̃ = 2^32): the "small BEHZ offset" -/
+theorem bfvLift_spec : type_of% @HC.bfvLift_spec := @HC.bfvLift_spec
+
+/-- W2, exact integer semantics of every output coefficient: under the window condition `c02w_Window`, for every output
+    polynomial `k` and coefficient `c` there is ONE `α < |q|` (the fast-floor error) such that for every prime q_i the residue
+    returned by the model is `⌊t·Z_k[c]/Q⌋ − α  mod q_i`, where `Z_k = Σ_{x+y=k} X_x ⋆ Y_y` over ℤ[X]/(X^N+1) is formed from the
+    lifted operand coefficients (`bfvLift_spec`); the Montgomery correction is exact and Shenoy–Kumaresan is exact in the window. -/
+theorem bfvMultiply_coeff : type_of% @HC.bfvMultiply_coeff := @HC.bfvMultiply_coeff
+
+/-- W2 with every hypothesis discharged from the model's constructors: level tables well formed, tool built by `RNSBase.new` +
+    `RNSTool.new` (auxiliary moduli well formed and ≥ 2^61 − 2^54), Bsk tables built by `NTTTables.new`, `min(n1,n2)·N ≤ 2^30` -/
+theorem bfvMultiply_coeff_of_new : type_of% @HC.bfvMultiply_coeff_of_new := @HC.bfvMultiply_coeff_of_new
+
+/-- W3 (ring form).  In ANY commutative ring `S` with an element `ξ`, `ξ^N = −1` (e.g. `ℤ[X]/(X^N+1)` or `ℤ_Q[X]/(X^N+1)`) and for ANY
+    secret `s ∈ S`: there are integer polynomials `D_k` (the exact lifts of the output polynomials: every residue the model returns
+    is `D_k[c] mod q_i`) and `E_k` with `0 ≤ E_k[c] < |q|·Q` such that
+    `Q · phase_s(D) + phase_s(E) = t · phase_s(X) · phase_s(Y)`, i.e. `phase(result) = (t·phase(X)·phase(Y) − phase_s(E))/Q`,
+    where `X`, `Y` are the lifted operands of `bfvLift_spec` (≡ the inputs modulo every q_i, size ≤ Q/2 + |q|Q/2^32). -/
+theorem bfvMultiply_phase : type_of% @HC.bfvMultiply_phase := @HC.bfvMultiply_phase
 
 end HC.C02
